@@ -437,7 +437,29 @@ def fam_solo2c(rng):
     return prog_with_setup(rng, th, cs=(0, 1), strategy=rng.choice(["nofast", "default"]), pnull=0.0)
 
 
+def fam_access(rng):
+    """C17: projection guards through Access / Map / DynAccess / AccessConvert, stores during their life"""
+    th = []
+    nr = rng.choice([1, 2])
+    for t in range(1, 1 + nr):
+        ops = []
+        for i in range(rng.randrange(1, 4)):
+            p = t * R + i
+            ops += [{"op": "acc_load", "c": 0, "p": p, "kind": rng.randrange(6)}, {"op": "deref_p", "p": p}]
+            if rng.random() < 0.4:
+                ops += writer_ops(rng, t, 0, 1)
+                ops.append({"op": "deref_p", "p": p})
+            if rng.random() < 0.6:
+                ops.append({"op": "drop_p", "p": p})
+        ops += [{"op": "deref_p", "p": t * R + i} for i in range(3)]
+        th.append(ops)
+    for t in range(1 + nr, 2 + nr + rng.choice([0, 1])):
+        th.append(writer_ops(rng, t, 0, rng.randrange(1, 4)))
+    return prog_with_setup(rng, th, strategy=rng.choice(["default", "default", "nofast"]))
+
+
 FAMILIES = {
+    "access": fam_access,
     "adv": fam_adv,
     "solo": fam_solo,
     "solo2c": fam_solo2c,
@@ -524,10 +546,14 @@ def sandwich(tier="quick", start_id=0):
     pairs_q += [("cas/aba", warm + cas, aba, "default", 40, 2), ("rcu/aba", warm + rcu, aba, "default", 40, 2)]
     pairs_t += [("cas/aba", warm + cas, aba, "default", 60, 120), ("rcu/aba", warm + rcu, aba, "default", 60, 120),
                 ("cas/aba/nofast", warm + cas, aba, "nofast", 60, 120)]
+    cache_a = [{"op": "cache_new", "x": 0, "c": 0}, {"op": "cache_load", "x": 0}, {"op": "cache_load", "x": 0}, {"op": "cache_load", "x": 0}]
+    st3 = warm2 + [{"op": "store", "c": 0, "v": new()}, {"op": "store", "c": 0, "v": new()}, {"op": "store", "c": 0, "v": new()}]
+    pairs_q += [("cache/st3", cache_a, st3, "default", 40, 110)] if tier != "quick" else []
     jobs = []
     # three context switches: A k1 | B k2 | A k3 | B completes | A completes
     tri = [("ld/st/nofast", warm + ld, warm2 + st, "nofast", 26, 44, 12, 14), ("ld/st", warm + ld, warm2 + st, "default", 24, 44, 12, 14),
-           ("cas/aba", warm + cas, aba, "default", 44, 70, 18, 18), ("rcu/aba", warm + rcu, aba, "default", 40, 70, 12, 18)]
+           ("cas/aba", warm + cas, aba, "default", 44, 70, 18, 18), ("rcu/aba", warm + rcu, aba, "default", 40, 70, 12, 18),
+           ("cache/st3", cache_a, st3, "default", 44, 100, 14, 12)]
     for name, a, b, strat, ka, kb, la, lb in tri:
         p = prog(a, b, strat)
         for k1 in range(la, ka):
